@@ -202,6 +202,94 @@ def task_neighbours(a, env):
     return r
 
 
+# ------------------------------------------------------------------ many distinct calls, then the operation again
+def _variant(v, j):
+    """the j-th of many pairwise distinct variants of one argument (None: no variants for this type)"""
+    if isinstance(v, bool) or v is None:
+        return None
+    if isinstance(v, int):
+        return v + 1 + j
+    if isinstance(v, (bytes, bytearray)):
+        b = bytes(v)
+        if len(b) in (48, 96):  # fixed-size encodings: keep the length (most variants are refused encodings)
+            return b[:-2] + ((int.from_bytes(b[-2:], "big") + 1 + j) % 65536).to_bytes(2, "big")
+        return b + (j + 1).to_bytes(2, "big")
+    if isinstance(v, tuple) and len(v) == 3 and all(SN._is_field_el(c) for c in v):
+        return tuple(c * (j + 2) for c in v)
+    if SN._is_field_el(v) and hasattr(type(v), "one"):
+        out = v
+        one = type(v).one()
+        for _ in range(1 + j % 7):
+            out = out + one
+        return out * (1 + j // 7) if j >= 7 else out
+    return None
+
+
+def sweep_op(name, n):
+    """history: X; then n calls of X with one argument replaced by pairwise distinct variants; after 1, 2, 3,
+    4, 6, 8, ... of them X again.  Returns None or (after, record) for the first X that differs."""
+    cost, build = OPSM.get(name)
+    f, args, kwargs = build()
+    idx = [i for i, a_ in enumerate(args) if _variant(a_, 0) is not None]
+    if not idx:
+        return "no-variants"
+    i = idx[0]
+    first = step(name)
+    checkpoints, c = set(), 1
+    while c <= n:
+        checkpoints |= {c, c + c // 2}
+        c *= 2
+    checkpoints.add(n)
+    for j in range(1, n + 1):
+        f2, a2, k2 = build()
+        a2 = list(a2)
+        a2[i] = _variant(a2[i], j)
+        try:
+            f2(*a2, **k2)
+        except Exception:  # noqa: BLE001 - a variant may be an invalid input; only X's result matters
+            pass
+        if j in checkpoints:
+            rec = step(name)
+            if rec["result"] != first["result"] or rec["state_diff"]:
+                return (j, rec)
+    return None
+
+
+def task_sweeps(a, env):
+    r = R("operation-again-after-n-distinct-variant-calls")
+    lits = _lits_from_json(a["lits"])
+    init_process(lits)
+    for x in a["ops"]:
+        if r.full():
+            break
+        bad = sweep_op(x, a["n"])
+        if bad == "no-variants":
+            continue
+        r.ev += a["n"] + 24
+        r.transitions += a["n"] + 24
+        r.dk.add(x)
+        if a["fresh"].get(x) is not None and bad is None:
+            continue
+        if bad:
+            r.viol("C20:history-dependent-result-after-many-distinct-calls:%s" % x, ME + ":replay_sweep",
+                   {"op": x, "n": bad[0], "lits": a["lits"]}, "the result of the first call", bad[1]["short"],
+                   note="after %d calls with pairwise distinct variants of one argument" % bad[0])
+    r.states = 1
+    if a.get("sample") and a["ops"]:
+        r.sample({"operation": a["ops"][0], "n": a["n"], "history": "X, X(v1), X, X(v2), X, X(v3), X, X(v4), X(v5), X, ..."})
+    return r
+
+
+def replay_sweep(a):
+    lits = _lits_from_json(a["lits"])
+    init_process(lits)
+    bad = sweep_op(a["op"], a["n"])
+    if bad in (None, "no-variants"):
+        return None
+    return {"op": a["op"], "after": bad[0], "expected": "the result of the first call", "observed": bad[1]["short"],
+            "state_changed": bad[1]["state_diff"][:6]}
+
+
 def replay_neighbour(a):
     lits = _lits_from_json(a["lits"])
     init_process(lits)
@@ -435,6 +523,12 @@ def run(ctx):
     nb_ops = [n for n, c in ops if c <= (1 if q else 3)]
     for i in range(0, len(nb_ops), 4):
         tasks.append(("neighbours", {"ops": nb_ops[i:i + 4], "lits": lj, "fresh": fresh, "sample": i == 0}))
+    sweep_ops = [n for n, c in ops if c == 0]
+    for i in range(0, len(sweep_ops), 3):
+        tasks.append(("sweeps", {"ops": sweep_ops[i:i + 3], "n": 300 if q else 1100, "lits": lj, "fresh": fresh, "sample": i == 0}))
+    sweep1 = [n for n, c in ops if c == 1]
+    for i in range(0, len(sweep1), 2):
+        tasks.append(("sweeps", {"ops": sweep1[i:i + 2], "n": 40 if q else 300, "lits": lj, "fresh": fresh}))
     if not q:
         tri = [n for n, c in ops if c == 0]
         for x in tri:
